@@ -21,7 +21,14 @@ Inductive item16 :=
 | Text (l : string)                       (* a line outside blocks: literal text (without its newline) *)
 | Raw (s : string)                        (* a line outside blocks exactly as it stands (the last line of a file may lack the newline) *)
 | Block (k : ekind) (ib ie : string) (body : list uline)     (* ib / ie : what precedes the begin / end tag on its line (indentation) *)
-| SigBlock (ib ie : string) (body : list uline).
+| SigBlock (ib ie : string) (body : list uline)
+| TransBlock (ib ie : string) (body : list titem)             (* per state > per event > per transition, nested *)
+with titem :=
+| TLine (l : uline)                                           (* a line of the per-state block *)
+| TEvent (ib ie : string) (body : list eitem)                 (* a per-event block inside it *)
+with eitem :=
+| ELine (l : uline)                                           (* a line of the per-event block *)
+| EGuard (ib ie : string) (body : list uline).                (* a per-transition block inside it *)
 
 Definition template16 := list item16.
 
@@ -33,12 +40,25 @@ Definition block_word (k : ekind) : string :=
 Definition begin_line (w : string) : string := ("<<<" ++ w ++ "_BEGIN>>>" ++ nl_str)%string.
 Definition end_line (w : string) : string := ("<<<" ++ w ++ "_END>>>" ++ nl_str)%string.
 
+Definition render_eitem (x : eitem) : list string :=
+  match x with
+  | ELine l => [render_line l]
+  | EGuard ib ie body => (ib ++ begin_line "PER_GUARDTRANSITION")%string :: map render_line body ++ [(ie ++ end_line "PER_GUARDTRANSITION")%string]
+  end.
+Definition render_titem (x : titem) : list string :=
+  match x with
+  | TLine l => [render_line l]
+  | TEvent ib ie body => (ib ++ begin_line "PER_EVENTTRANSITION")%string :: flat_map render_eitem body ++ [(ie ++ end_line "PER_EVENTTRANSITION")%string]
+  end.
+
 Definition render_item16 (it : item16) : list string :=
   match it with
   | Text l => [(l ++ nl_str)%string]
   | Raw s => [s]
   | Block k ib ie body => (ib ++ begin_line (block_word k))%string :: map render_line body ++ [(ie ++ end_line (block_word k))%string]
   | SigBlock ib ie body => (ib ++ begin_line "PER_ACTION_SIGNATURE")%string :: map render_line body ++ [(ie ++ end_line "PER_ACTION_SIGNATURE")%string]
+  | TransBlock ib ie body =>
+      (ib ++ begin_line "PER_STATETRANSITION")%string :: flat_map render_titem body ++ [(ie ++ end_line "PER_STATETRANSITION")%string]
   end.
 Definition render16 (t : template16) : list string := flat_map render_item16 t.
 
@@ -80,7 +100,10 @@ Definition ref_block {A} (tb : A -> nat -> list (string * string)) (items : list
 Record elements := {
   el_states : list string; el_events : list string; el_actions : list string; el_guards : list string;
   el_sigs : list (string * string);
-  el_structs : list string; el_protos : list string; el_msgs : list string }.
+  el_structs : list string; el_protos : list string; el_msgs : list string;
+  (* per state (sources first, then the states that are only targets), per event of the state, the transitions in table
+     order; a transition is the table of the name tags it defines *)
+  el_tps : list (string * list (string * list (list (string * string)))) }.
 
 Fixpoint add_missing (l extra : list string) : list string :=
   match extra with
@@ -90,10 +113,26 @@ Fixpoint add_missing (l extra : list string) : list string :=
 
 (* of a transition table and an events interface: first-appearance order; the interface's structs that are not events
    of the table follow the table's events *)
+(* the name tags a transition defines (keyed by the full tag): its action, its guard, and -- when it has a target -- its own
+   state under the tag STATENAMEIFNEXTSTATE and its target; an absent action / guard / target defines nothing *)
+Definition tagstr (n : string) : string := ("<<<" ++ n ++ ">>>")%string.
+Definition trans_table (r : row) : list (string * string) :=
+  (if is_none (r_act r) then []
+   else [(tagstr "ACTIONNAME", r_act r); (tagstr "actionName", camel (r_act r)); (tagstr "ACTION_NAME", snake (r_act r))])
+  ++ (if is_none (r_guard r) then []
+      else [(tagstr "GUARDNAME", r_guard r); (tagstr "GUARD_NAME", snake (r_guard r)); (tagstr "guardName", camel (r_guard r))])
+  ++ (if is_none (r_next r) then []
+      else [(tagstr "STATENAMEIFNEXTSTATE", r_src r); (tagstr "stateNameIfNextState", camel (r_src r));
+            (tagstr "STATE_NAME_IF_NEXT_STATE", snake (r_src r));
+            (tagstr "NEXTSTATENAME", r_next r); (tagstr "nextStateName", camel (r_next r)); (tagstr "NEXT_STATE_NAME", snake (r_next r))]).
+
+Definition tps_of (t : table) : list (string * list (string * list (list (string * string)))) :=
+  map (fun s => (s, map (fun ev => (ev, map trans_table (TTable.trans_of t s ev))) (TTable.events_of t s))) (TTable.tps_states t).
+
 Definition elements_of (t : table) (structs protos msgs : list string) : elements :=
   {| el_states := TTable.states t; el_events := add_missing (TTable.events t) structs;
      el_actions := TTable.actions t; el_guards := TTable.guards t; el_sigs := TTable.actionsignatures t;
-     el_structs := structs; el_protos := protos; el_msgs := msgs |}.
+     el_structs := structs; el_protos := protos; el_msgs := msgs; el_tps := tps_of t |}.
 
 Definition items_of (e : elements) (k : ekind) : list string :=
   match k with
@@ -103,12 +142,54 @@ Definition items_of (e : elements) (k : ekind) : list string :=
 Definition table_of_kind (k : ekind) : string -> nat -> list (string * string) :=
   match k with KStruct | KProto | KMsg => proto_table | _ => elem_table end.
 
+(* ---------------------------------------------------------------- nested transition blocks *)
+Definition state_table (s : string) : list (string * string) := family "STATENAME" "stateName" "STATE_NAME" s.
+Definition event_table (ev : string) : list (string * string) := family "EVENTNAME" "eventName" "EVENT_NAME" ev.
+
+(* a tag (with or without alternative text) that the table defines becomes the name *)
+Definition subst_any (tb : list (string * string)) (g : seg) : seg :=
+  match g with
+  | Tag n _ => match lookup String.eqb (tagstr n) tb with Some v => Lit v | None => g end
+  | _ => g
+  end.
+
+Definition is_tagseg (g : seg) : bool := match g with Tag _ _ => true | Lit _ => false end.
+Fixpoint count_lead_ws (s : string) : nat :=
+  match s with String c r => if is_ws c then S (count_lead_ws r) else 0 | EmptyString => 0 end.
+Fixpoint spaces (n : nat) : string := match n with O => EmptyString | S k => String SP (spaces k) end.
+
+(* one line of a per-transition block for one transition: the line with the names filled in; if it mentions a name the
+   transition lacks, the alternative text given in the tag (at the line's indentation), or nothing *)
+Definition ref_gline (ev : string) (tr : list (string * string)) (l : uline) : list string :=
+  let l2 := map (subst_any tr) (map (subst16 (event_table ev)) l) in
+  match List.find is_tagseg l2 with
+  | None => [render_line l2]
+  | Some (Tag _ (Some (String c x))) => [(spaces (count_lead_ws (render_line l2)) ++ String c x ++ nl_str)%string]
+  | Some _ => []
+  end.
+
+Definition ref_eitem (ev : string) (trs : list (list (string * string))) (x : eitem) : list string :=
+  match x with
+  | ELine l => [render_line (map (subst16 (event_table ev)) l)]
+  | EGuard _ _ body => flat_map (fun tr => flat_map (ref_gline ev tr) body) trs
+  end.
+
+Definition ref_titem (s : string) (evs : list (string * list (list (string * string)))) (x : titem) : list string :=
+  match x with
+  | TLine l => [render_line (map (subst16 (state_table s)) l)]
+  | TEvent _ _ body => flat_map (fun et => flat_map (ref_eitem (fst et) (snd et)) body) evs
+  end.
+
+Definition ref_trans (tps : list (string * list (string * list (list (string * string))))) (body : list titem) : list string :=
+  flat_map (fun se => flat_map (ref_titem (fst se) (snd se)) body) tps.
+
 Definition ref_item16 (e : elements) (it : item16) : list string :=
   match it with
   | Text l => [(l ++ nl_str)%string]
   | Raw s => [s]
   | Block k _ _ body => ref_block (table_of_kind k) (items_of e k) body
   | SigBlock _ _ body => ref_block sig_table (el_sigs e) body
+  | TransBlock _ _ body => ref_trans (el_tps e) body
   end.
 
 (* the generated file: TAB normalised to four spaces *)
